@@ -146,6 +146,14 @@ Theorem C05_from_body : forall fin ev body on de ini r i,
 Proof. exact from_body. Qed.
 Print Assumptions C05_from_body.
 
+(* cause detection and the pass read nothing of a body but metadata.deletionTimestamp / metadata.finalizers
+   ("from the object's state alone": of the body, only these two fields; the rest enters through old/diff) *)
+Theorem C05_reads_only_core : forall fin ev body on de ini cons hs,
+  detect_body fin ev (core_body body) on de ini = detect_body fin ev body on de ini /\
+  cycle fin ev (core_body body) on de ini cons hs = cycle fin ev body on de ini cons hs.
+Proof. intros; split; [exact (core_detect_body fin ev body on de ini) | exact (core_cycle fin ev body on de ini cons hs)]. Qed.
+Print Assumptions C05_reads_only_core.
+
 (* one pass of process_resource_causes over a body: whatever it invokes is in the invoked list of the cause
    detected from that body (finalizer passes, the stealth filter and the consistency gate only remove) *)
 Theorem C05_pass_sound : forall fin ev body on de ini cons hs out h,
